@@ -94,34 +94,37 @@ def gen_ut(r, n, style):
 
 
 def gen_case(g, tier, idx):
+    """one SUKFCorrection / UKFCorrection object pair driven through 1..3 successive calls.
+    Returns (harness line `sukfs ...`, [equivalent single-call `sukf ...` lines], meta)."""
     r = g.r
-    style = r.choice(["full", "full", "reduced", "reduced", "nondividing", "nondividing", "exactsqrt", "smallnoise", "affine", "fault", "wc0zero"])
+    mmax = 12 if tier == "quick" else 18
+    style = r.choice(["full", "full", "reduced", "reduced", "nondividing", "nondividing", "exactsqrt", "smallnoise", "affine", "fault", "wc0zero", "scalar"])
     n = idx % 4 + 1 if idx < 8 else r.randint(1, 4)
-    bs = r.randint(1, 3)
-    nb = idx % 4 + 1 if idx < 8 else r.randint(1, 4)
+    bs = [1, 2, 3, 5, 6, 3, 2, 1][idx % 8] if idx < 16 else r.choice([1, 2, 2, 3, 3, 5, 6])
+    nbmax = max(1, min(4, mmax // bs))
+    nb = min(nbmax, idx % 4 + 1) if idx < 8 else r.randint(1, nbmax)
+    if idx >= 16 and nbmax >= 2 and r.random() < 0.6:
+        nb = r.randint(2, nbmax)                 # mostly several blocks
     msz = nb * bs
     red = 1 if style == "reduced" else (0 if style == "full" else r.randint(0, 1))
-    k = r.choice([1, 1, 2, 3])
     kind = 0 if style == "affine" else r.choice([0, 1, 1, 2, 2, 3])
-    fail = (0, 0, 0)
+    if style == "scalar":
+        bs, nb, msz = 1, 1, 1                    # scalar measurement, a single block
     if style == "nondividing":
-        bs = r.randint(2, 3)
-        msz = r.choice([v for v in range(1, 10) if v % bs != 0])
-    if style == "fault":
-        j = r.randrange(3)
-        fail = tuple(1 if i == j else 0 for i in range(3))
+        bs = r.choice([2, 3, 5, 6])
+        msz = r.choice([v for v in range(1, mmax + 1) if v % bs != 0])
     if style == "wc0zero":
         alpha, beta, kap = 1.0, 0.0, 0.0          # lambda = 0: wc_0 = 0, the boundary of the guard
     else:
         alpha, beta, kap = gen_ut(r, n, style)
     noise = 10 ** r.uniform(-3, -1.5) if style == "smallnoise" else 10 ** r.uniform(-1.5, 0.7)
     if red:
-        R = g.spd(bs, cond=10 ** r.uniform(0, 2.5), scale=noise)
+        R = g.spd(bs, cond=10 ** r.uniform(0.3, 2.5), scale=noise)
     else:
         R = vlib.mzeros(msz, msz)
         if msz % bs == 0:
             for i in range(msz // bs):
-                blk = g.spd(bs, cond=10 ** r.uniform(0, 2.5), scale=noise * 10 ** r.uniform(-0.5, 0.5))   # all blocks distinct
+                blk = g.spd(bs, cond=10 ** r.uniform(0.3, 2.5), scale=noise * 10 ** r.uniform(-0.5, 0.5))   # distinct, non-isotropic blocks
                 for a in range(bs):
                     for c in range(bs):
                         R[bs * i + a][bs * i + c] = blk[a][c]
@@ -129,18 +132,41 @@ def gen_case(g, tier, idx):
             R = g.spd(msz, cond=10.0, scale=noise)
     H = [[r.uniform(-1.5, 1.5) for _ in range(n)] for _ in range(msz)]
     h0 = [r.uniform(-1, 1) for _ in range(msz)]
-    means = [[r.uniform(-2, 2) for _ in range(n)] for _ in range(k)]
-    Ps = [g.spd(n, cond=10 ** r.uniform(0, 3), scale=10 ** r.uniform(-1.5, 0.3)) for _ in range(k)]
-    y = [r.uniform(-3, 3) for _ in range(msz)]
-    outw = [r.uniform(0.01, 1.0) for _ in range(k)]
-    toks = ["sukf", str(n), str(msz), str(bs), str(red), str(k), hexd(alpha), hexd(beta), hexd(kap), str(kind)] + [str(f) for f in fail]
-    toks += vlib.fmt_mat_cm(H) + [hexd(v) for v in h0] + [hexd(v) for v in y] + vlib.fmt_mat_cm(R)
-    toks += [hexd(means[c][i]) for c in range(k) for i in range(n)]
-    toks += [hexd(Ps[c][i][j]) for c in range(k) for j in range(n) for i in range(n)]
-    toks += [hexd(w) for w in outw]
-    meta = {"style": style, "n": n, "msz": msz, "bs": bs, "red": red, "k": k, "kind": kind, "fail": list(fail),
-            "ut": [alpha, beta, kap]}
-    return " ".join(toks), meta
+    ncalls = r.choice([1, 2, 2, 3])
+    head = [str(n), str(msz), str(bs), str(red)]
+    ut = [hexd(alpha), hexd(beta), hexd(kap)]
+    mid = vlib.fmt_mat_cm(H) + [hexd(v) for v in h0]
+    Rt = vlib.fmt_mat_cm(R)
+    htoks = ["sukfs"] + head + ut + [str(kind)] + mid + Rt + [str(ncalls)]
+    singles, ks, fails = [], [], []
+    for ci in range(ncalls):
+        k = r.choice([1, 2, 2, 3])
+        fail = (0, 0, 0)
+        if style == "fault" and r.random() < 0.6:
+            j = r.randrange(3)
+            fail = tuple(1 if i == j else 0 for i in range(3))
+        means = [[r.uniform(-2, 2) for _ in range(n)] for _ in range(k)]
+        Ps = [g.spd(n, cond=10 ** r.uniform(0, 3), scale=10 ** r.uniform(-1.5, 0.3)) for _ in range(k)]
+        y = [r.uniform(-3, 3) for _ in range(msz)]
+        outw = [r.uniform(0.01, 1.0) for _ in range(k)]
+        bel = [hexd(means[c][i]) for c in range(k) for i in range(n)] \
+            + [hexd(Ps[c][i][j]) for c in range(k) for j in range(n) for i in range(n)] + [hexd(w) for w in outw]
+        yt = [hexd(v) for v in y]
+        htoks += [str(k)] + [str(f) for f in fail] + yt + bel
+        singles.append(" ".join(["sukf"] + head + [str(k)] + ut + [str(kind)] + [str(f) for f in fail] + mid + yt + Rt + bel))
+        ks.append(k); fails.append(list(fail))
+    meta = {"style": style, "n": n, "msz": msz, "bs": bs, "red": red, "ks": ks, "kind": kind, "fails": fails,
+            "ut": [alpha, beta, kap], "calls": ncalls}
+    return " ".join(htoks), singles, meta
+
+
+def split_calls(hout, ncalls):
+    """per-call outputs of a `sukfs` line, each in the single-call format"""
+    if not hout.startswith("ok"):
+        return [hout] * ncalls
+    parts = hout[2:].split(" | ")
+    outs = ["ok " + p.strip() for p in parts]
+    return (outs + ["crash:short-output"] * ncalls)[:ncalls]
 
 
 def parse_line(line):
@@ -344,9 +370,13 @@ def check_case(line, meta, hout, dline, dout, stats, notes):
             notes["fault:model_vs_impl_differ"] = notes.get("fault:model_vs_impl_differ", 0) + 1
         return probs
     # ---- a successful step
+    if not all(math.isfinite(v) for v in sm + sc):
+        return probs + [("prop", "non-finite", "serial correction returned non-finite mean/covariance entries on a valid input")]
     if not ("u_mean" in o):
         return [("prop", "impl-crash", "no output of the standard correction")]
     um = [unhex(v) for v in o["u_mean"]]; uc = [unhex(v) for v in o["u_cov"]]
+    if not all(math.isfinite(v) for v in um + uc):
+        return probs + [("prop", "non-finite", "standard correction returned non-finite mean/covariance entries on a valid input")]
     if not (o["s_lik_valid"] and len(o["s_lik"]) == k):
         probs.append(("prop", "likelihood-missing", "serial correction reports no likelihood (%s, %d values) after a successful step" % (o["s_lik_valid"], len(o["s_lik"]))))
     if not (o["u_lik_valid"] and len(o["u_lik"]) == k):
@@ -427,37 +457,46 @@ def check_case(line, meta, hout, dline, dout, stats, notes):
 
 # ----------------------------------------------------------------------------- run
 
+def meta_of_single(line, style):
+    c = parse_line(line)
+    return {"style": style, "n": c["n"], "msz": c["msz"], "bs": c["bs"], "red": c["red"], "ks": [c["k"]], "kind": c["kind"],
+            "fails": [c["fail"]], "calls": 1}
+
+
 def corpus_cases():
     out = []
     p = vlib.VERIF / "corpus" / "C05" / "cases.txt"
     if p.exists():
         for ln in p.read_text().split("\n"):
             ln = ln.strip()
-            if ln and not ln.startswith("#"):
-                c = parse_line(ln)
-                out.append((ln, {"style": "corpus", "n": c["n"], "msz": c["msz"], "bs": c["bs"], "red": c["red"], "k": c["k"],
-                                 "kind": c["kind"], "fail": c["fail"]}))
+            if ln and not ln.startswith("#") and ln.startswith("sukf "):
+                out.append((ln, [ln], meta_of_single(ln, "corpus")))
     return out
 
 
 def run(ctx):
     ctx.proof_stage()
     binary = vlib.build_harness("h_sukf")
-    cases = corpus_cases()
+    cases = corpus_cases()       # (harness line, [single-call lines], meta)
     g = ctx.gen("sukf")
-    for i in range(ctx.n(150, 4000)):
+    for i in range(ctx.n(90, 2500)):
         cases.append(gen_case(g, ctx.tier, i))
     if ctx.replay:
-        line = json.load(open(ctx.replay))["replay"]["input_line"]
-        c = parse_line(line)
-        cases = [(line, {"style": "replay", "n": c["n"], "msz": c["msz"], "bs": c["bs"], "red": c["red"], "k": c["k"], "kind": c["kind"], "fail": c["fail"]})]
-    lines = [c[0] for c in cases]
-    hout, logs = vlib.run_harness(binary, lines)
+        rep = json.load(open(ctx.replay))["replay"]
+        cases = [(rep["input_line"], rep.get("single_call_lines", [rep["input_line"]]), meta_of_single(rep.get("single_call_lines", [rep["input_line"]])[0], "replay"))]
+        cases[0][2]["calls"] = len(cases[0][1])
+    hout, logs = vlib.run_harness(binary, [c[0] for c in cases])
+    # per-call records: (object index, call index, single line, harness output of that call)
+    calls = []
+    for oi, ((hline, singles, meta), h) in enumerate(zip(cases, hout)):
+        for ci, (sl, ho) in enumerate(zip(singles, split_calls(h, len(singles)))):
+            calls.append((oi, ci, sl, ho))
     dlines, dmap = [], []
-    for (line, meta), h in zip(cases, hout):
-        if h.startswith("ok"):
+    for oi, ci, sl, ho in calls:
+        if ho.startswith("ok"):
             try:
-                dlines.append(driver_line(parse_line(line), parse_hout(h, parse_line(line))))
+                c = parse_line(sl)
+                dlines.append(driver_line(c, parse_hout(ho, c)))
                 dmap.append(len(dlines) - 1)
                 continue
             except (AssertionError, IndexError, ValueError):
@@ -467,49 +506,65 @@ def run(ctx):
     stats, notes, hist, branch = {}, {}, {}, {}
     distinct, nontrivial = set(), set()
     corr_bad, prop_bad = [], []
-    for (line, meta), h, di in zip(cases, hout, dmap):
-        hist[meta["style"]] = hist.get(meta["style"], 0) + 1
-        distinct.add(line)
-        divides = meta["msz"] % meta["bs"] == 0
-        if not divides:
-            b = "early return: meas_size % sub_size != 0"
-        elif meta["fail"][0]:
-            b = "early return: no valid measurement"
-        elif meta["fail"][1]:
-            b = "early return: predictedMeasure failed"
-        elif meta["fail"][2]:
-            b = "early return: innovation failed"
+
+    def bump(key):
+        branch[key] = branch.get(key, 0) + 1
+    for (oi, ci, sl, ho), di in zip(calls, dmap):
+        hline, singles, meta = cases[oi]
+        if ci == 0:
+            hist[meta["style"]] = hist.get(meta["style"], 0) + 1
+            bump("calls per object=%d" % len(singles))
+        distinct.add(sl)
+        c = parse_line(sl)
+        if c["msz"] % c["bs"] != 0:
+            bump("early return: meas_size % sub_size != 0")
+            bump("non-dividing: sub_size=%d" % c["bs"])
+        elif c["fail"][0]:
+            bump("early return: no valid measurement")
+        elif c["fail"][1]:
+            bump("early return: predictedMeasure failed")
+        elif c["fail"][2]:
+            bump("early return: innovation failed")
         else:
-            b = "corrected"
-            nontrivial.add(line)
-            branch["noise: " + ("reduced (shared block)" if meta["red"] else "full (diagonal blocks)")] = branch.get("noise: " + ("reduced (shared block)" if meta["red"] else "full (diagonal blocks)"), 0) + 1
-            branch["blocks=%d" % (meta["msz"] // meta["bs"])] = branch.get("blocks=%d" % (meta["msz"] // meta["bs"]), 0) + 1
-            branch["h kind %d" % meta["kind"]] = branch.get("h kind %d" % meta["kind"], 0) + 1
-            branch["components=%d" % meta["k"]] = branch.get("components=%d" % meta["k"], 0) + 1
-        branch[b] = branch.get(b, 0) + 1
+            bump("corrected")
+            nontrivial.add(sl)
+            bump("noise: " + ("reduced (shared block)" if c["red"] else "full (diagonal blocks)"))
+            bump("blocks=%d" % (c["msz"] // c["bs"]))
+            bump("sub_size=%d" % c["bs"])
+            bump("h kind %d" % c["kind"])
+            bump("components=%d" % c["k"])
+            if ci > 0:
+                bump("corrected on a reused object (call %d)" % (ci + 1))
         if di is None:
-            probs = [("prop", "impl-crash", "correction failed on a valid input: %s" % h[:80])] if not h.startswith("ok") else \
+            probs = [("prop", "impl-crash", "correction failed on a valid input: %s" % ho[:80])] if not ho.startswith("ok") else \
                     [("corr", "harness-output", "harness output not understood")]
         else:
-            probs = check_case(line, meta, h, dlines[di], dout[di], stats, notes)
+            try:
+                probs = check_case(sl, meta, ho, dlines[di], dout[di], stats, notes)
+            except (ValueError, OverflowError, ZeroDivisionError, TypeError) as e:
+                probs = [("prop", "unreadable-result", "results of the corrections could not be evaluated (%s: %s)" % (type(e).__name__, str(e)[:80]))]
         for kind, key2, what in probs:
-            (corr_bad if kind == "corr" else prop_bad).append((key2, what, line, h))
+            (corr_bad if kind == "corr" else prop_bad).append((key2, "call %d of %d: %s" % (ci + 1, len(singles), what), hline, singles, hout[oi]))
     seen = set()
-    for key2, what, line, h in prop_bad:
+    for key2, what, hline, singles, h in prop_bad:
         if key2 in seen:
             continue
         seen.add(key2)
-        ctx.violation(key2, "SUKFCorrection vs UKFCorrection: " + what, {"harness": "h_sukf", "input_line": line, "observed": h[:3000]})
+        ctx.violation(key2, "SUKFCorrection vs UKFCorrection: " + what,
+                      {"harness": "h_sukf", "input_line": hline, "single_call_lines": singles, "observed": h[:3000]})
     if corr_bad and not prop_bad:
-        key2, what, line, h = corr_bad[0]
+        key2, what, hline, singles, h = corr_bad[0]
         ctx.violation("correspondence:" + key2, "model and implementation disagree (%d findings), no property predicate failed: %s" % (len(corr_bad), what),
-                      {"harness": "h_sukf", "correspondence": "BFL/Model/SUKF.lean vs SUKFCorrection.cpp / UKFCorrection.cpp", "input_line": line, "observed": h[:3000]}, no_input=True)
+                      {"harness": "h_sukf", "correspondence": "BFL/Model/SUKF.lean vs SUKFCorrection.cpp / UKFCorrection.cpp",
+                       "input_line": hline, "single_call_lines": singles, "observed": h[:3000]}, no_input=True)
     ctx.coverage.update({
-        "evaluations": len(cases), "distinct_nontrivial": len(nontrivial & distinct),
-        "rule": "SUKFCorrection and additive UKFCorrection on the same input: state dim 1..4, measurement = blocks(1..4) x sub_size(1..3), 1..3 distinct components, "
-                "h affine / sine / quadratic / coupled (harness-defined AdditiveMeasurementModel), block-diagonal R with all blocks distinct supplied in full, or one "
-                "shared block; UT parameters with wc_0 >= 0 (incl. wc_0 = 0 and triples with exact square roots); plus sizes not divisible by the block size and "
-                "failing model calls; non-trivial = a step that actually corrects; distinct = distinct input lines",
+        "evaluations": len(calls), "distinct_nontrivial": len(nontrivial & distinct), "objects": len(cases),
+        "rule": "one SUKFCorrection and one additive UKFCorrection object per case, driven through 1..3 successive correct()+getLikelihood() calls (component count, "
+                "belief, measurement and failing calls vary from call to call; every call is checked): state dim 1..4, measurement = blocks(1..4) x sub_size in "
+                "{1,2,3,5,6}, 1..3 distinct components, h affine / sine / quadratic / coupled (harness-defined AdditiveMeasurementModel), block-diagonal R with distinct "
+                "non-isotropic blocks supplied in full, or one shared block; UT parameters with wc_0 >= 0 (incl. wc_0 = 0 and triples with exact square roots); "
+                "scalar measurements; sizes not divisible by the block size (sub_size 2,3,5,6); failing model calls; "
+                "non-trivial = a call that actually corrects; distinct = distinct single-call inputs",
         "samples": [cases[0][0][:300], cases[-1][0][:300]],
         "style_histogram": hist, "branch_histogram": branch, "numeric": stats, "notes_outside_property": notes,
         "traces_validated_against_impl": len([d for d in dmap if d is not None]),
